@@ -48,6 +48,17 @@ def gen_hostile(rng):
     return gen.random_diagram(rng, 40, 20)
 
 
+def crlf_legend_doc(rng):
+    """a CRLF (or mixed) document with a legend below rows of multi-byte characters: byte offsets, character offsets and
+    line counts all differ here"""
+    rows = []
+    for _ in range(rng.range(1, 6)):
+        rows.append(rng.choice(["┌──────┐", "│ {a}  │", "└──────┘", "é--", "一二三", "+--+", "| {a}|", "", "ж ш", "😀 x"]))
+    doc = "\n".join(rows) + "\n" + rng.choice(["", "\n"]) + "# Legend:\n" + rng.choice(["a = {fill:papayawhip;}", "a = {fill:red}\nb = {x:y}", ""]) + "\n"
+    nl = rng.choice(["\r\n", "\r\n", "\r", "\n\r"])
+    return doc.replace("\n", nl)
+
+
 class Check(PropertyCheck):
     id = "C01"
     lean_modules = ["Svgbob.Properties.C01"]
@@ -64,7 +75,8 @@ class Check(PropertyCheck):
                 "non-blank characters, distinct by input")
 
     def inputs(self, n):
-        return list(HOSTILE) + [gen_hostile(self.rng) for _ in range(n)] + [gen.zoo(self.rng) for _ in range(n // 4)]
+        return list(HOSTILE) + [gen_hostile(self.rng) for _ in range(n)] + [gen.zoo(self.rng, crlf=self.rng.chance(1, 2)) for _ in range(n // 4)] + \
+            [crlf_legend_doc(self.rng) for _ in range(n // 10)]
 
     def correspondence(self):
         dis = []
